@@ -99,6 +99,8 @@ def regions(cfg, r):
         out.append("finalised-late")
     if cfg.get("np"):
         out.append("numpy-integer-arguments")
+    if cfg.get("style"):
+        out.append("call-style:" + cfg["style"])
     return out
 
 
@@ -181,7 +183,7 @@ def _compact(r):
 
 def sweep(tier, seed, weights=None):
     count, shards = SIZES[tier]
-    boxcfgs = list(C.box(tier)) + list(C.late_finalisation_box(tier)) + list(C.numpy_typed_box(tier)) + list(C.iter_driver_box(tier)) + list(C.deep_repeat_probes(tier))
+    boxcfgs = list(C.box(tier)) + list(C.late_finalisation_box(tier)) + list(C.numpy_typed_box(tier)) + list(C.iter_driver_box(tier)) + list(C.call_style_box(tier)) + list(C.deep_repeat_probes(tier))
     box_results = R.pmap(_exec, boxcfgs)
     gen = R.pmap(_shard, [(tier, seed, s, count, weights) for s in range(shards)], chunksize=1)
     gen_results = [r for part in gen for r in part]
